@@ -284,6 +284,20 @@ func observe(p *an.Path, v *an.Expr, raw string, maxExpr *an.Expr, base an.Env, 
 						rel = name
 					}
 				}
+				if rel == "" {
+					// the comparison sits in a helper enumerated in line: its operands are the helper's own
+					// values. It is relational when neither operand is a literal and the other side is, on
+					// this path, the value of another sink.
+					_, cx := bo.X.(*ssa.Const)
+					_, cy := bo.Y.(*ssa.Const)
+					if !cx && !cy {
+						for name, ov := range others {
+							if ov != nil && ov.Parent() != a.If.Block().Parent() && sameValue(otherExpr, p.Of(ov)) {
+								rel = name
+							}
+						}
+					}
+				}
 			}
 		}
 		if rel != "" {
